@@ -111,7 +111,18 @@ func c06K2(c *Ctx) {
 			}
 			nUses++
 			construct := fname + "/pair-use:" + owner.Obj().Name() + "." + f.Name()
-			c.check(nn.pairGuardedFactOnly(fa, b), construct, P.InstrPos(in), fname,
+			// guarded where the value is loaded, or at every place where it is dereferenced
+			// (a copy taken into a local before the guard is used after it)
+			guarded := nn.pairGuardedFactOnly(fa, b)
+			if !guarded {
+				guarded = true
+				for _, site := range derefSites(P, u) {
+					if !nn.pairGuardedFactOnly(fa, site.Block()) {
+						guarded = false
+					}
+				}
+			}
+			c.check(guarded, construct, P.InstrPos(in), fname,
 				"used under "+ef.Name()+" == nil", owner.Obj().Name()+"."+f.Name()+" is dereferenced on a path where "+ef.Name()+" is not known to be nil: for a document where that field is missing or malformed the value is nil and this crashes")
 		})
 	}
@@ -150,20 +161,27 @@ func c06K2(c *Ctx) {
 // valueIsDereferenced: the loaded pointer/interface is used as a receiver,
 // dereferenced, or passed to a servitor function that dereferences it unconditionally.
 func valueIsDereferenced(P *Program, v ssa.Value) bool {
+	return len(derefSites(P, v)) > 0
+}
+
+// derefSites: the instructions that dereference the loaded value.
+func derefSites(P *Program, v ssa.Value) []ssa.Instruction {
+	var out []ssa.Instruction
 	for _, r := range refs(v) {
 		switch x := r.(type) {
 		case *ssa.FieldAddr:
 			if x.X == v {
-				return true
+				out = append(out, x)
 			}
 		case *ssa.UnOp:
 			if x.Op == token.MUL && x.X == v {
-				return true
+				out = append(out, x)
 			}
 		case ssa.CallInstruction:
 			cc := x.Common()
 			if cc.IsInvoke() && cc.Value == v {
-				return true
+				out = append(out, x)
+				continue
 			}
 			if !cc.IsInvoke() && len(cc.Args) > 0 && cc.Args[0] == v {
 				if f := calleeObj(cc); f != nil {
@@ -171,17 +189,17 @@ func valueIsDereferenced(P *Program, v ssa.Value) bool {
 						// method with pointer receiver: dereferences unless it checks nil first
 						if sc := cc.StaticCallee(); sc != nil && P.IsServitorFunc(sc) && len(sc.Params) > 0 {
 							if paramDereferenced(sc.Params[0]) {
-								return true
+								out = append(out, x)
 							}
 							continue
 						}
-						return true
+						out = append(out, x)
 					}
 				}
 			}
 		}
 	}
-	return false
+	return out
 }
 
 // paramDereferenced: the parameter is dereferenced on some path that is not
@@ -537,6 +555,27 @@ func c06K4(c *Ctx) {
 			}
 			construct := fname + "/match-index:" + fmt.Sprint(k)
 			problem := ""
+			// a length test that covers the index settles it whatever the pattern is
+			lenGuard := false
+			for _, fact := range factsOf(fn).At(b) {
+				cmp, ok := fact.Cmp()
+				if !ok {
+					continue
+				}
+				if lc, ok := cmp.X.(*ssa.Call); ok {
+					if bi, ok := lc.Call.Value.(*ssa.Builtin); ok && bi.Name() == "len" && (lc.Call.Args[0] == ia.X) {
+						if kk, isK := constInt(cmp.Y); isK {
+							if (cmp.Op == token.EQL && kk > k) || (cmp.Op == token.GTR && kk >= k) || (cmp.Op == token.GEQ && kk > k) {
+								lenGuard = true
+							}
+						}
+					}
+				}
+			}
+			if lenGuard {
+				c.ok(construct, P.InstrPos(in), fname, "a dominating length test covers the index")
+				return
+			}
 			for _, pc := range producers {
 				pat, ok := patternOfRegexpValue(P, pc.Call.Args[0])
 				if !ok {
@@ -685,6 +724,21 @@ func c06K5(c *Ctx) {
 		if cmp, ok := in.(*ssa.BinOp); ok && cmp.Op == token.EQL {
 			if s, isC := constString(cmp.Y); isC && strings.HasSuffix(path(cmp.X), ".&kind.*") {
 				handled[s] = true
+			}
+		}
+	})
+	// or a table lookup `verb, ok := verbs[a.kind]` with the panic on !ok:
+	// the handled kinds are the keys of the (constant, never updated) table
+	eachInstr(hdr, func(_ *ssa.BasicBlock, _ int, in ssa.Instruction) {
+		lk, ok := in.(*ssa.Lookup)
+		if !ok || !lk.CommaOk || !strings.HasSuffix(path(lk.Index), ".&kind.*") {
+			return
+		}
+		if ld, ok := lk.X.(*ssa.UnOp); ok && ld.Op == token.MUL {
+			if g, ok := ld.X.(*ssa.Global); ok {
+				for _, k := range constStringMapKeys(g) {
+					handled[k] = true
+				}
 			}
 		}
 	})
@@ -1101,24 +1155,38 @@ func splicerPagesAreCollections(P *Program) (bool, string) {
 				return
 			}
 			n++
-			switch v := st.Val.(type) {
-			case *ssa.Call:
-				if !(v.Call.IsInvoke() && v.Call.Method.Name() == "Children") {
-					why = "page assigned from " + objFullName(calleeObj(&v.Call)) + " at " + P.InstrPos(in)
+			var classify func(val ssa.Value, d int)
+			classify = func(val ssa.Value, d int) {
+				val = unwrapLoad(val)
+				switch v := val.(type) {
+				case *ssa.Phi:
+					// a value chosen by a (type) switch: every alternative must qualify
+					if d < 6 {
+						for _, e := range v.Edges {
+							classify(e, d+1)
+						}
+						return
+					}
+					why = "page assigned from an unrecognised value at " + P.InstrPos(in)
+				case *ssa.Call:
+					if !(v.Call.IsInvoke() && v.Call.Method.Name() == "Children") {
+						why = "page assigned from " + objFullName(calleeObj(&v.Call)) + " at " + P.InstrPos(in)
+					}
+				case *ssa.MakeInterface:
+					if !isNamed(v.X.Type(), "servitor/pub", "Collection") {
+						why = "page assigned a " + typeString(v.X.Type()) + " at " + P.InstrPos(in)
+					}
+				case *ssa.Extract:
+					call, ok := v.Tuple.(*ssa.Call)
+					if !ok || !call.Call.IsInvoke() || call.Call.Method.Name() != "Harvest" || v.Index != 1 || !strings.Contains(path(call.Call.Value), "page") {
+						why = "page assigned from an unexpected call result at " + P.InstrPos(in)
+					}
+				case *ssa.Const:
+				default:
+					why = "page assigned from an unrecognised value at " + P.InstrPos(in)
 				}
-			case *ssa.MakeInterface:
-				if !isNamed(v.X.Type(), "servitor/pub", "Collection") {
-					why = "page assigned a " + typeString(v.X.Type()) + " at " + P.InstrPos(in)
-				}
-			case *ssa.Extract:
-				call, ok := v.Tuple.(*ssa.Call)
-				if !ok || !call.Call.IsInvoke() || call.Call.Method.Name() != "Harvest" || v.Index != 1 || !strings.Contains(path(call.Call.Value), "page") {
-					why = "page assigned from an unexpected call result at " + P.InstrPos(in)
-				}
-			case *ssa.Const:
-			default:
-				why = "page assigned from an unrecognised value at " + P.InstrPos(in)
 			}
+			classify(st.Val, 0)
 		})
 	}
 	if n == 0 {
@@ -1304,4 +1372,52 @@ func splitIndexing(c *Ctx) {
 	}
 	c.info("split_accesses", n)
 	c.ok("module/split-accesses", "", "module", fmt.Sprintf("%d accesses to pieces of split texts in the module, each checked", n))
+}
+
+// constStringMapKeys: the constant string keys of a package-level map that is
+// made by a literal in the initialiser and never updated anywhere else.
+func constStringMapKeys(g *ssa.Global) []string {
+	if g.Pkg == nil {
+		return nil
+	}
+	var mk *ssa.MakeMap
+	bad := false
+	for _, m := range g.Pkg.Members {
+		f, ok := m.(*ssa.Function)
+		if !ok {
+			continue
+		}
+		for _, ff := range append([]*ssa.Function{f}, f.AnonFuncs...) {
+			eachInstr(ff, func(_ *ssa.BasicBlock, _ int, in ssa.Instruction) {
+				switch x := in.(type) {
+				case *ssa.Store:
+					if x.Addr == ssa.Value(g) {
+						if m2, ok := x.Val.(*ssa.MakeMap); ok && mk == nil && ff.Name() == "init" {
+							mk = m2
+						} else {
+							bad = true
+						}
+					}
+				case *ssa.MapUpdate:
+					if ld, ok := x.Map.(*ssa.UnOp); ok && ld.Op == token.MUL && ld.X == ssa.Value(g) {
+						bad = true
+					}
+				}
+			})
+		}
+	}
+	if mk == nil || bad {
+		return nil
+	}
+	var keys []string
+	for _, r := range refs(mk) {
+		if mu, ok := r.(*ssa.MapUpdate); ok {
+			k, isC := constString(mu.Key)
+			if !isC {
+				return nil
+			}
+			keys = append(keys, k)
+		}
+	}
+	return keys
 }
